@@ -206,16 +206,16 @@ Proof.
       * rewrite sf_backstop in E; [| exact Hp1 | exact Hv | unfold isref; rewrite Href; reflexivity | exact Hb].
         injection E as _ <- _. discriminate.
       * rewrite (sf_ref _ _ _ _ _ _ _ t Hv Href Hb) in E.
-        assert (Hnl : snd (follow (S (N.to_nat (supply s1))) s1 o) <> Err ERefLoop).
+        assert (Hnl : snd (follow (S (N.to_nat (supply s1))) s1 o k) <> Err ERefLoop).
         { destruct (inv_sess_inv _ _ I1) as (_ & Hcok & [Hndc _] & _).
-          apply (RotateLaws4.follow_no_loop _ s1 o ob Hp1 Hcok Hndc).
+          apply (RotateLaws4.follow_no_loop _ s1 o ob k Hp1 Hcok Hndc).
           - apply Kcs_RWs_ref_wf; [exact K1 | eapply RWs_qt; eassumption].
           - exact Ho.
           - intros t' Ht'. rewrite Href in Ht'. injection Ht' as <-.
             destruct (RWs_qt _ _ Q1 R k t) as (m & -> & Hm & _); [rewrite Hs; reflexivity|].
             exists m. split; [reflexivity|]. split; [exact Hm | lia]. }
-        destruct (follow _ s1 o) as [s2 fr]. cbn [snd] in Hnl.
-        destruct fr as [o'|e|e]; injection E as _ <- _; [discriminate | intro Hx; apply Hnl; injection Hx as ->; reflexivity | discriminate].
+        destruct (follow _ s1 o k) as [s2 fr]. cbn [snd] in Hnl.
+        destruct fr as [[o' lk']|e|e]; injection E as _ <- _; [discriminate | intro Hx; apply Hnl; injection Hx as ->; reflexivity | discriminate].
     + destruct (c_idexpiry c <=? since (r_created (o_rec ob)) (now s1))%Z eqn:Ha.
       * rewrite (sf_rotate _ _ _ _ _ _ _ F1 Ho Hv Href Ha) in E. injection E as _ <- _. discriminate.
       * destruct (sat_add (c_idexpiry c) (c_grace c) <=? since (r_created (o_rec ob)) (now s1))%Z eqn:Hb.
